@@ -265,3 +265,72 @@ func cutAtFence(evs []Ev, fd string) ([]Ev, bool) {
 	}
 	return evs, false
 }
+
+// runFlood (C13): the reference sender opens many request ids with intermediate chunks and never
+// completes them; judged are the memory the receiver holds for incomplete messages (against the
+// negotiated MaxChunkCount, with a stated slack) and that the channel is still alive or closed.
+const floodSlack = 4
+
+func runFlood(b *Beh) runResult {
+	g, err := openRig(rigOpts{Policy: b.Policy, Mode: b.Mode, Side: b.Side, MaxChunks: b.MaxChunks})
+	if err != nil {
+		return runResult{status: "inconclusive", detail: "open: " + err.Error()}
+	}
+	defer g.close()
+	if !g.r.waitFor(func(evs []Ev) bool { return hasRet(evs) }, 10*time.Second) {
+		return runResult{status: "inconclusive", detail: "no handshake events on the receiver"}
+	}
+	rs, err := newRefSender(g, b.Mode)
+	if err != nil {
+		return runResult{status: "inconclusive", detail: err.Error()}
+	}
+	_, _, cur, _, _ := uasc.VerifActive(g.sendCh)
+	seq := cur
+	rnd := vfgo.Rand(int64(b.N) * 71)
+	maxSeen := 0
+	for _, c := range b.Chunks {
+		seq++
+		body := make([]byte, 200+rnd.Intn(800))
+		rnd.Read(body)
+		fr, err := rs.chunk(c.Kind[0], seq, 7000+uint32(c.Req), body)
+		if err != nil {
+			return runResult{status: "inconclusive", detail: "chunk: " + err.Error()}
+		}
+		if err := rs.write(fr); err != nil {
+			break // the receiver may have closed the connection
+		}
+	}
+	// fence
+	fp := payload(fenceTag, 64, vfgo.Seed())
+	fbody, _ := encodeBody(b.Side, fenceTag, fp)
+	fr, _ := rs.chunk('F', seq+1, fenceTag, fbody)
+	rs.write(fr)
+	fd := dig(fp)
+	alive := g.r.waitFor(func(evs []Ev) bool {
+		for _, e := range evs {
+			if e.Ev == "ret" && (e.Dig == fd || e.EOF) {
+				return true
+			}
+		}
+		return false
+	}, 15*time.Second)
+	reqs, chunks, bytes := uasc.VerifBufferedChunks(g.recvCh)
+	if chunks > maxSeen {
+		maxSeen = chunks
+	}
+	obs := map[string]any{"request_ids": reqs, "chunks": chunks, "bytes": bytes, "max_chunk_count": b.MaxChunks,
+		"spec_buffered": b.Buffered, "asis_buffered": b.AsisBuffered}
+	if !alive {
+		return runResult{status: "violation", key: "c13:flood-receiver-dead", detail: fmt.Sprintf("after %d intermediate chunks an intact message was not delivered within 15 s and the channel did not close", len(b.Chunks)), obs: obs}
+	}
+	limit := floodSlack * int(b.MaxChunks)
+	if chunks > limit {
+		key := "c13:flood-buffer-exceeds-limit"
+		if chunks == b.AsisBuffered && b.AsisBuffered != b.Buffered {
+			key = "c13:flood-partials-bounded-per-request-id-only"
+		}
+		return runResult{status: "violation", key: key,
+			detail: fmt.Sprintf("%d intermediate chunks over %d request ids are held (%d bytes) with MaxChunkCount=%d negotiated (specification: at most %d, tolerated %d)", chunks, reqs, bytes, b.MaxChunks, b.Buffered, limit), obs: obs}
+	}
+	return runResult{status: "ok", obs: obs}
+}
